@@ -149,6 +149,11 @@ def c13(ck):
     scripts = [[s] for s in pool]
     for i in range(60 if ck.quick() else 600):
         scripts.append(rnd.sample(pool, rnd.randint(2, 6)))
+    # "appears exactly once": a script that repeats a statement (re-run or concatenated migrations) has equal entities in
+    # the flat list; each occurrence is an entity of its own and keeps its place
+    for s in pool:
+        scripts.append([s, s])
+        scripts.append([s, rnd.choice(pool), s])
     # statements whose target table is not defined in the script: flat and grouped agree (both raise, or both report it)
     orphans = ["ALTER TABLE nowhere ADD c int;", "CREATE INDEX ix_nowhere ON nowhere (c);", "ALTER TABLE s1.nowhere ADD CONSTRAINT pk_n PRIMARY KEY (id);"]
     for o in orphans:
